@@ -41,6 +41,9 @@ def literal_keys_read(f, dictname="results"):
 
 
 def run(ctx):
+    from ..shared import state_alias_rule as _state_alias_rule
+
+    _state_alias_rule(ctx, "R15.10", scope=lambda f, _s=("EasyFEA.Simulations", "EasyFEA.FEM._mesh"): f.module.name.startswith(_s), min_instances=100)
     # 'reading a stored iteration never alters the simulation' and restores exactly iteration i: no memo of what was read survives a later save
     from ..shared import memo_rule as _memo_rule, cached_param_rule as _cached_param_rule
 
